@@ -684,3 +684,32 @@ def r13_11(ctx):
     ok = bool(w) and bool(checks) and all(scg.order[c] < scg.order[w[0]] for c in checks)
     ctx.check(ok, "Stage.add_objective validates the term before adding it", detail="a rejected (non-scalar / signal-valued) term stays in the objective", expected="all checks before self._objective = ...",
               found="checks at %s, write at %s" % ([scg.order[c] for c in checks], [scg.order[x] for x in w]), fi=g)
+
+
+@rule("R13.12", min_instances=3, desc="solving twice changes nothing: no function on the solve path (Ocp.solve / solve_limited -> method -> OptiWrapper.solve) writes guesses, values, constraints or the objective of the live problem")
+def r13_12(ctx):
+    from .c19 import OPTI_WRITERS
+    P = ctx.prog
+    roots = [P.own_method("Ocp", "solve"), P.own_method("Ocp", "solve_limited"), P.own_method("OptiWrapper", "solve")]
+    for root in roots:
+        seen, _ = P.reachable([root], max_depth=3, stop=lambda f: f.cls is None)
+        # the solve path proper: functions named solve* (entry point, method, wrapper) and what they call inside rockit's method classes
+        writers = []
+        for g in seen.values():
+            if g.cls is None or g.cls.name in ("OcpSolution", "OptiSolWrapper"):
+                continue
+            for c in walk_no_nested(g.node):
+                if isinstance(c, ast.Call) and isinstance(c.func, ast.Attribute) and c.func.attr in OPTI_WRITERS:
+                    recv = ast.unparse(c.func.value)
+                    if recv in ("opti", "self.opti", "Opti", "self") or recv.endswith(".opti"):
+                        if recv == "self" and g.cls.name != "OptiWrapper":
+                            continue
+                        writers.append("%s: %s" % (g.qualname, ast.unparse(c)[:70]))
+        ctx.check(not writers, "%s leaves the transcribed problem as it is" % root.qualname, detail="a solve changes the starting point / data of the next solve: solve, solve is not the same as one solve followed by a fresh one",
+                  expected="no set_initial / set_value / subject_to / minimize on the live Opti problem on the solve path", found="; ".join(writers[:3]), fi=root, sample={"reachable": sorted(g.qualname for g in seen.values())[:12]})
+
+
+@rule("R13.13", min_instances=1, desc="a guess given after a solve reaches the same starting point as the same guess given before it: the guess tables of the whole stage tree are re-applied (shared with C10)")
+def r13_13(ctx):
+    from .c10 import r10_11
+    r10_11(ctx)
